@@ -157,9 +157,9 @@ def translate(repo):
     # transparent wrappers in _ensure_node_in_anf: isinstance(node, ast.keyword) / isinstance(node, (ast.Starred, ...))
     wrappers = []
     for s in ast.walk(ensure):
-        if isinstance(s, ast.If) and isinstance(s.test, ast.Call) and ast.unparse(s.test.func) == 'isinstance' \
-                and ast.unparse(s.test.args[0]) == 'node' and ast.unparse(s.test.args[1]) != 'list':
-            wrappers += _cls_names(s.test.args[1])
+        if isinstance(s, ast.Call) and ast.unparse(s.func) == 'isinstance' and len(s.args) == 2 \
+                and ast.unparse(s.args[0]) == 'node' and ast.unparse(s.args[1]) != 'list':
+            wrappers += _cls_names(s.args[1])
     # gensym
     gs = [n for n in tree.body if isinstance(n, ast.ClassDef) and n.name == 'DummyGensym']
     if len(gs) != 1:
